@@ -9,6 +9,7 @@ Open Scope N_scope.
 Definition good_delivery (o : out) : Prop :=
   match o with
   | ODeliver c chs j => j_done j = false /\ eligible (j_chan j) chs
+  | OReleased c j => j_done j = true              (* released from a wait: the job record is finished *)
   | _ => True
   end.
 
@@ -53,26 +54,19 @@ Proof.
   intros [H|H]; [exists (c_id y), j; auto|auto].
 Qed.
 
-Lemma drop_outs_In : forall b l o, In o (drop_outs b l) -> In o l \/ o = OKeyErr.
-Proof.
-  intros b l o. destruct l as [|x r]; cbn [drop_outs]; [intros []|].
-  intros [H|H]; [destruct b; [left; left; exact H|right; auto]|].
-  apply in_map_iff in H. destruct H as (y&Hy&_). right; auto.
-Qed.
-
 Lemma evdone_out : forall s ser o, In o (snd (run_event (EvDone ser) s)) ->
-  (exists c j, o = OReleased c j /\ getjob (s_jobs s) ser = Some j) \/ o = OKeyErr.
+  exists c j, o = OReleased c j /\ getjob (s_jobs s) ser = Some j.
 Proof.
   intros s ser o. cbn [run_event]. destruct (release ser (s_jobs s) (s_conns s)) as [cs o'] eqn:ER.
   pose proof (release_out ser (s_jobs s) (s_conns s) o) as R. rewrite ER in R. cbn [snd] in R.
-  destruct (getjob (s_jobs s) ser) as [j|] eqn:Ej; [|cbn [snd]; intro H; left; exact (R H)].
-  destruct (j_drop j && has_waiter ser (s_conns s)); cbn [snd]; intro H; [|left; exact (R H)].
-  apply drop_outs_In in H. destruct H as [H|H]; [left; exact (R H)|right; exact H].
+  destruct (getjob (s_jobs s) ser) as [j|] eqn:Ej; [|cbn [snd]; intro H; exact (R H)].
+  destruct (j_drop j && has_waiter ser (s_conns s) && id_is (s_ids s) (j_id j) ser); cbn [snd]; intro H; exact (R H).
 Qed.
 
-Lemma run_event_out : forall e s o, Inv s [] [] -> In o (snd (run_event e s)) -> good_delivery o.
+Lemma run_event_out : forall e s o, Inv s [] [] -> (forall ser, e = EvDone ser -> really_done (s_jobs s) ser) ->
+  In o (snd (run_event e s)) -> good_delivery o.
 Proof.
-  intros e s o I. destruct e as [c|c|ser]; cbn [run_event].
+  intros e s o I HD. destruct e as [c|c|ser]; cbn [run_event].
   - destruct (c_st (get_conn (s_conns s) c)) as [|chs [x|]|w|] eqn:ES; try (intros []).
     destruct (is_done (s_jobs s) x) eqn:D.
     + apply pop_out; auto.
@@ -81,31 +75,35 @@ Proof.
       split; [|exact He]. unfold is_done in D. rewrite Ej in D. exact D.
   - destruct (c_st (get_conn (s_conns s) c)) as [|chs mb|w|]; unfold die; cbn [snd];
       try (intros [H|[]]; subst o; exact Logic.I); intros [].
-  - intro H. destruct (evdone_out s ser o H) as [(c&j&Ho&_)|Ho]; subst o; exact Logic.I.
+  - intro H. destruct (evdone_out s ser o H) as (c&j&Ho&Ej). subst o. cbn [good_delivery].
+    destruct (HD ser eq_refl) as (j'&Ej'&Dj'). congruence.
 Qed.
 
-Lemma run_events_out : forall es s o, Aux s -> Inv s [] [] -> In o (snd (run_events es s)) -> good_delivery o.
+Lemma run_events_out : forall es s o, Inv s [] [] -> hub_ok (s_jobs s) es -> In o (snd (run_events es s)) -> good_delivery o.
 Proof.
-  induction es as [|e r IH]; intros s o A I; cbn [run_events]; [intros []|].
-  pose proof (run_event_inv e s A I) as I1. pose proof (run_event_out e s o I) as O1. pose proof (run_event_jobs e s) as J1.
+  induction es as [|e r IH]; intros s o I HD; cbn [run_events]; [intros []|].
+  assert (HDe : forall ser, e = EvDone ser -> really_done (s_jobs s) ser) by (intros ser E; apply HD; left; exact E).
+  pose proof (run_event_inv e s I HDe) as I1. pose proof (run_event_out e s o I HDe) as O1. pose proof (run_event_jobs e s) as J1.
   destruct (run_event e s) as [s1 o1]. cbn [fst snd] in *.
-  specialize (IH s1 o (aux_same _ _ J1 A) I1). destruct (run_events r s1) as [s2 o2]. cbn [snd] in *.
+  assert (HD1 : hub_ok (s_jobs s1) r) by (rewrite J1; intros ser Hin; apply HD; right; exact Hin).
+  specialize (IH s1 o I1 HD1). destruct (run_events r s1) as [s2 o2]. cbn [snd] in *.
   intro H. apply in_app_or in H. destruct H; auto.
 Qed.
 
-Lemma step_out : forall s o x, Aux s -> Inv s [] [] -> In x (snd (step s o)) -> good_delivery x.
+Lemma step_out : forall s o x, HubOK s -> Inv s [] [] -> In x (snd (step s o)) -> good_delivery x.
 Proof.
-  intros s o x A I. destruct o as [ch prio name tmo|c chs| |c i res e|c js|dt|c|k|c i|i|i v| |dt|js|]; cbn [step].
+  intros s o x K I. destruct o as [ch prio name tmo|c chs| |c i res e|c js|dt|c|k|c i|i|i v| |dt|js|]; cbn [step].
   - destruct (push ch prio name tmo s). cbn [snd]. intros [H|[]]; subst; exact Logic.I.
   - destruct (is_idle c s); [apply pop_out; exact I|]. cbn [snd]. intros [H|[]]; subst; exact Logic.I.
-  - apply run_events_out; [exact A|]. eapply inv_same; eauto.
+  - apply run_events_out; [eapply inv_same; eauto|exact K].
   - destruct (is_idle c s); [destruct (id_lookup (s_ids s) i)|]; cbn [snd]; intros [H|[]]; subst; exact Logic.I.
   - destruct (is_idle c s); cbn [snd]; intros [H|[]]; subst; exact Logic.I.
   - cbn [snd]. intros [H|[]]; subst; exact Logic.I.
   - destruct (c_st (get_conn (s_conns s) c)); cbn [snd]; intros [H|[]]; subst; exact Logic.I.
   - cbn [snd]. intros [H|[]]; subst; exact Logic.I.
-  - destruct (is_idle c s); [destruct (id_lookup (s_ids s) i) as [ser|]; [destruct (getjob (s_jobs s) ser) as [j|]; [destruct (j_done j && negb (done_pending ser (s_hub s)))|]|]|];
-      cbn [snd]; intros [H|[]]; subst; exact Logic.I.
+  - destruct (is_idle c s); [destruct (id_lookup (s_ids s) i) as [ser|]; [destruct (getjob (s_jobs s) ser) as [j|]; [destruct (j_done j && negb (done_pending ser (s_hub s))) eqn:ED|]|]|];
+      cbn [snd]; intros [H|[]]; subst; try exact Logic.I.
+    cbn [good_delivery]. apply andb_true_iff in ED. apply ED.
   - cbn [snd]. intros [H|[]]; subst; exact Logic.I.
   - destruct (id_lookup (s_ids s) i); cbn [snd]; intros [H|[]]; subst; exact Logic.I.
   - cbn [snd]. intros [H|[]]; subst; exact Logic.I.
@@ -114,10 +112,16 @@ Proof.
   - cbn [snd]. intros [H|[]]; subst; exact Logic.I.
 Qed.
 
-Lemma delivered_ok : forall h o c chs j, nodrop h = true ->
+Lemma delivered_ok : forall h o c chs j,
   In (ODeliver c chs j) (snd (step (run h init) o)) ->
   j_done j = false /\ (chs = [] \/ mem (j_chan j) chs = true).
-Proof. intros h o c chs j ND H. apply (step_out _ _ _ (reachable_aux h ND) (reachable_inv h ND) H). Qed.
+Proof. intros h o c chs j H. apply (step_out _ _ _ (reachable_hub h) (reachable_inv h) H). Qed.
+
+(* whatever op of whatever history releases a waiting client (at once from Wait, or at RunLoop through the finish
+   event): the job record it returns is finished *)
+Lemma released_only_finished : forall h o c j,
+  In (OReleased c j) (snd (step (run h init) o)) -> j_done j = true.
+Proof. intros h o c j H. apply (step_out _ _ _ (reachable_hub h) (reachable_inv h) H). Qed.
 
 (* ------------------------------------------------------------------ finality *)
 
@@ -210,7 +214,7 @@ Proof.
   - destruct (c_st (get_conn (s_conns s) c)); apply fin_le_refl.
   - apply fin_le_refl.
   - destruct (is_idle c s); [|apply fin_le_refl]. destruct (id_lookup (s_ids s) i) as [ser|]; [|apply fin_le_refl].
-    destruct (getjob (s_jobs s) ser) as [j|]; [|apply fin_le_refl]. destruct (j_done j && negb (done_pending ser (s_hub s))); [destruct (j_drop j)|]; apply fin_le_refl.
+    destruct (getjob (s_jobs s) ser) as [j|]; [|apply fin_le_refl]. destruct (j_done j && negb (done_pending ser (s_hub s))); [destruct (j_drop j && id_is (s_ids s) (j_id j) ser)|]; apply fin_le_refl.
   - apply fin_le_refl.
   - destruct (id_lookup (s_ids s) i) as [ser|]; [|apply fin_le_refl]. cbn [fst]. sf. intros x j E D.
     rewrite getjob_setjob by (intros; cbn; assumption). destruct (x =? ser) eqn:Ex.
@@ -222,19 +226,18 @@ Proof.
   - cbn [fst]. apply dropdead_fin_le.
 Qed.
 
-Lemma run_fin_le : forall h2 s, nodrop h2 = true -> Aux s -> Inv s [] [] -> fin_le (s_jobs s) (s_jobs (run h2 s)).
+Lemma run_fin_le : forall h2 s, Good s -> fin_le (s_jobs s) (s_jobs (run h2 s)).
 Proof.
-  induction h2 as [|o r IH]; intros s ND A I; [apply fin_le_refl|].
-  cbn [nodrop forallb] in ND. apply andb_true_iff in ND. destruct ND as [N1 N2].
+  induction h2 as [|o r IH]; intros s G; [apply fin_le_refl|].
   change (run (o :: r) s) with (run r (fst (step s o))).
-  eapply fin_le_trans; [apply step_fin_le; exact I|apply IH; [exact N2|apply step_aux; assumption|apply step_inv; assumption]].
+  eapply fin_le_trans; [apply step_fin_le; apply G|apply IH; apply step_good; exact G].
 Qed.
 
-Lemma first_outcome_wins : forall h1 h2 x j, nodrop h1 = true -> nodrop h2 = true ->
+Lemma first_outcome_wins : forall h1 h2 x j,
   getjob (s_jobs (run h1 init)) x = Some j -> j_done j = true ->
   exists j', getjob (s_jobs (run h2 (run h1 init))) x = Some j' /\
              j_done j' = true /\ j_err j' = j_err j /\ j_res j' = j_res j.
-Proof. intros h1 h2 x j N1 N2. apply run_fin_le; [exact N2|apply reachable_aux; exact N1|apply reachable_inv; exact N1]. Qed.
+Proof. intros h1 h2 x j. apply run_fin_le. apply reachable_good. Qed.
 
 (* ------------------------------------------------------------------ re-add, wait *)
 
@@ -260,12 +263,13 @@ Lemma wait_done_immediate : forall s c i ser j,
   step s (Wait c i) = (s, [OReleased c j]).
 Proof. intros s c i ser j EI El E D P Dr. cbn [step]. rewrite EI, El, E, D, P, Dr. reflexivity. Qed.
 
-(* ... and with the drop flag the job is handed over one last time and its id is forgotten *)
+(* ... and with the drop flag the job is handed over and its id is forgotten - provided the id still names THIS
+   job object (jobs.py:229, b6f8314) *)
 Lemma wait_done_dropped : forall s c i ser j,
   is_idle c s = true -> id_lookup (s_ids s) i = Some ser -> getjob (s_jobs s) ser = Some j -> j_done j = true ->
-  done_pending ser (s_hub s) = false -> j_drop j = true ->
-  step s (Wait c i) = (set_ids (id_del (s_ids s) i) s, [OReleased c j]).
-Proof. intros s c i ser j EI El E D P Dr. cbn [step]. rewrite EI, El, E, D, P, Dr. reflexivity. Qed.
+  done_pending ser (s_hub s) = false -> j_drop j = true -> id_is (s_ids s) (j_id j) ser = true ->
+  step s (Wait c i) = (set_ids (id_del (s_ids s) (j_id j)) s, [OReleased c j]).
+Proof. intros s c i ser j EI El E D P Dr Is. cbn [step]. rewrite EI, El, E, D, P, Dr, Is. reflexivity. Qed.
 
 Lemma wait_undone_blocks : forall s c i ser j,
   is_idle c s = true -> id_lookup (s_ids s) i = Some ser -> getjob (s_jobs s) ser = Some j -> j_done j = false ->
@@ -275,8 +279,12 @@ Proof.
   sf. pose proof (get_put_same (s_conns s) (mkConn c (BWait ser) (c_run (get_conn (s_conns s) c)))) as G. sf. rewrite G. reflexivity.
 Qed.
 
-(* a client is released from a wait only with a finished job *)
-Lemma released_is_done : forall s ser o,
+(* the only hub event that releases a waiting client is the finish event of its job; every client it releases gets
+   the job record (no KeyError any more, b6f8314), and the record is finished when the notification was queued by
+   _mark_finished (HubOK) *)
+Lemma released_is_done : forall s ser o, really_done (s_jobs s) ser ->
   In o (snd (run_event (EvDone ser) s)) ->
-  (exists c j, o = OReleased c j /\ getjob (s_jobs s) ser = Some j) \/ o = OKeyErr.
-Proof. exact evdone_out. Qed.
+  exists c j, o = OReleased c j /\ getjob (s_jobs s) ser = Some j /\ j_done j = true.
+Proof.
+  intros s ser o (j'&Ej'&Dj') H. destruct (evdone_out s ser o H) as (c&j&Ho&Ej). exists c, j. repeat split; auto. congruence.
+Qed.
